@@ -1,6 +1,7 @@
 (* C07 — control response bodies follow the DSP0236 response layouts.  Property theorems only. *)
 Require Import Base Crc Bitfield Headers Encode Decode Process Ops Spec Judge.
 Require Import HeaderForms IanaForm PecFacts EncodeFacts DecodeFacts Hist StepsSimple StepsEncode.
+Require Import Readable.
 Open Scope N_scope.
 
 (* in every well-formed history, every successfully encoded control response has body
@@ -17,3 +18,16 @@ Example C07_nonvacuous :
 Proof. vm_compute. reflexivity. Qed.
 
 Print Assumptions C07_oracle_holds_on_model.
+
+(* ---------- stated directly about an encoder call (no oracle to read) ---------- *)
+(* (2) every successfully encoded control response: between the message-type byte and the PEC lie exactly 0x00, the
+   command code, the completion code supplied, and the command's DSP0236 fields (with the context's current EID) *)
+Theorem C07_body_of_every_response : forall ovf g c id a ls w buf out n,
+  wf_cfg g -> cinv g c -> args_okb false id a ls = true ->
+  encode_call ovf c false id a ls = Some w -> w buf = (out, Val (Some n)) ->
+  (1 <=? id) && (id <=? 6) = true ->
+  exists code cc fields, spec_response id a ls (c_eid_resp c) = Some (code, cc, fields) /\
+    sub out 9 (n - 10) = [0; code; cc] ++ fields.
+Proof. exact body_of_every_response. Qed.
+
+Print Assumptions C07_body_of_every_response.
